@@ -14,6 +14,7 @@ func init() {
 	env.Register("C11_Vote", C11_Vote)
 	env.Register("C11_NewView", C11_NewView)
 	env.Register("C11_PrepareCommit", C11_PrepareCommit)
+	env.Register("C11_BlocklessNewView", C11_BlocklessNewView)
 }
 
 func symPrepareRaw(wd *vWorld, name string) *interfaces.ConsensusRawMessage {
@@ -242,4 +243,61 @@ func C11_NextViewPrepare() {
 	l2.deliver(vote.ToConsensusRawMessage())
 	env.Assert("C11.VC.counted", storedBy(l2, s1, "VC", r.me))
 	env.Reach("C11.VC.after_next_view_prepare")
+}
+
+// C11_BlocklessNewView: the consumer does not object to a missing block (as the repository's own mocks). The Byzantine
+// leader of view 1 sends an otherwise genuine proof-less NEW_VIEW whose envelope carries NO block; PREPAREs and
+// COMMITs of the other members for its hash follow. Whatever the node does with it, it must not panic out of the
+// worker's handler, and the VIEW_CHANGE it sends at its next timeout must still be counted by the correct leader of
+// view 2 (a node that votes "proof without block" is ignored by every leader: the height is wedged).
+func C11_BlocklessNewView() {
+	const me = 3
+	wd := newWorld(me, paramWeights())
+	n, net := wd.n, wd.net
+	n.bu.Lenient = true
+	n.timeout()
+	blk := &stub.Block{H: 1, Tag: 0x27, ProposalOK: true}
+	var votes []*interfaces.ViewChangeMessage
+	for _, i := range othersOf(me) {
+		votes = append(votes, net.vcm(i, 1, 1, nil))
+	}
+	full := net.nvm(1, 1, 1, votes, blk)
+	var carried interfaces.Block
+	if env.NondetBool("block_attached") {
+		carried = blk
+	}
+	p := 0
+	deliver := func(raw *interfaces.ConsensusRawMessage) {
+		if q := env.Catch(func() { n.m.worker.handleRawMessage(raw) }); q != 0 {
+			p = q
+		}
+	}
+	deliver(interfaces.NewNewViewMessage(full.Content(), carried).ToConsensusRawMessage())
+	hash := stub.HashOf(blk)
+	for _, i := range []int{0, 2} {
+		deliver(net.pm(i, 1, 1, hash).ToConsensusRawMessage())
+	}
+	for _, i := range othersOf(me) {
+		deliver(net.cm(i, 1, 1, hash).ToConsensusRawMessage())
+	}
+	env.Assert("C12.worker.no_panic", p == 0)
+	if len(n.commits) > 0 {
+		env.Assert("C04.block_present", n.commits[0].block != nil)
+		env.Reach("C11.blockless.committed")
+		return
+	}
+	from := len(n.comm.Out)
+	n.timeout()
+	vote := lastVote(n, from)
+	env.Assert("C11.VC.emitted", vote != nil)
+	if vote == nil {
+		return
+	}
+	r := wd.peer(2)
+	r.timeout()
+	r.timeout()
+	s0 := len(r.st.Events)
+	r.deliver(vote.ToConsensusRawMessage())
+	env.Assert("C11.VC.counted", storedBy(r, s0, "VC", n.me))
+	env.Reach("C11.blockless.voted")
 }
